@@ -926,12 +926,16 @@ fn c06_judge(c: &C06Case, obs: &mut Obs) -> Result<(), String> {
     let mut a = c.desc.build();
     let mut b = c.desc.build();
     for (n, seg) in c.segs.iter().enumerate() {
-        let pa = partition(seg.units, &seg.cuts_a);
-        let mut pb = partition(seg.units, &seg.cuts_b);
+        // an empty interval: animator A is not advanced at all, B only gets the zero-length steps
+        let pa = if seg.units == 0 { vec![] } else { partition(seg.units, &seg.cuts_a) };
+        let mut pb = if seg.units == 0 { vec![] } else { partition(seg.units, &seg.cuts_b) };
         for z in &seg.zeros_b {
             let at = mv_engine::pick_idx(*z, pb.len() + 1);
             pb.insert(at, 0);
             obs.label(2);
+        }
+        if seg.units == 0 && pb.is_empty() {
+            pb.push(0);
         }
         let before = a.current_values().clone();
         for u in &pa {
